@@ -103,6 +103,10 @@ pub struct RefResult {
     /// The reference process computed the request under two different hash-key streams
     /// and got different answers.
     pub unstable: bool,
+    /// The two evaluations differed only in that one ran into the step budget: a
+    /// `Diverged` outcome for this request is not evidence of anything.
+    #[serde(default)]
+    pub budget_sensitive: bool,
 }
 
 #[derive(Clone, Debug, PartialEq, Eq, Serialize, Deserialize)]
@@ -340,6 +344,8 @@ pub struct RunRecord {
     #[serde(default)]
     pub late_starts: u64,
     #[serde(default)]
+    pub library_yields: u64,
+    #[serde(default)]
     pub clock_jumps: u64,
     #[serde(default)]
     pub panicking_calls: u64,
@@ -390,6 +396,9 @@ pub struct RunRecord {
     pub callsigs: Option<Vec<(u64, u64)>>,
     /// Calls whose path signature differs from an earlier execution of the same request in
     /// this worker process (the library took another path for the same call).
+    /// (call identity, path signature + step count) of every guarded call of the run.
+    #[serde(default)]
+    pub workload: Option<Vec<(u64, u64)>>,
     #[serde(default)]
     pub path_impure: u64,
     #[serde(default)]
